@@ -312,6 +312,7 @@ static void wf_plan(Rng &rng, Plan &p, const std::string &prop) {
     if (prop == "C04") { n = (int) rng.range(1, rng.chance(1, 4) ? 40 : 12); f.max_body = 60; f.many_headers = false; f.close_delim = rng.coin(); }
     if (prop == "C06") { f.max_body = rng.chance(1, 4) ? 9000 : 400; f.hostile_body = true; f.many_headers = false; }
     f.wild_path = true;
+    f.expect_withheld = true;   // (both schedules used below keep "the next request follows the refusal")
     // the way an IDS in streaming mode uses the library: completed transactions are destroyed between calls (2) and their list
     // slots recycled with htp_connp_tx_freed (3) while later pipelined transactions are still in flight
     if (rng.chance(1, prop == "C04" ? 3 : 6)) p.cfg.set("disposal", (long) rng.range(2, 3));
